@@ -33,6 +33,7 @@ type GenAccount struct {
 type GenValidator struct {
 	Actor *Actor
 	Stake int64
+	StakeBig *big.Int // overrides Stake (stakes beyond int64: only a genesis file can state them)
 	// genesis variety (a state exported from a running chain holds all of these)
 	Jailed      bool
 	JailedUntil time.Time // signing info of a jailed validator
@@ -56,6 +57,9 @@ type GenesisConfig struct {
 	Exported bool
 	// Tombstoned: keys without a validator record whose signing info (tombstoned) is part of the genesis state
 	Tombstoned []*Actor
+	// Defect: a deliberately inconsistent pos genesis (""/validator-twice/cons-key-twice/staked-and-jailed/stake-at-minimum):
+	// InitChain may refuse it; if it does not, the resulting chain is judged like any other
+	Defect string
 	// OmitSupply: the auth genesis states no supply (InitGenesis computes it from the accounts)
 	OmitSupply bool
 	// OmitInnerAddr: signing-info records of the genesis state do not repeat the address their map key already gives
@@ -89,6 +93,11 @@ func (g GenesisConfig) AppState() []byte {
 	prevTotal := int64(0)
 	for _, v := range g.Validators {
 		val := posTypes.NewValidator(v.Actor.Addr, v.Actor.Pub, sdk.NewInt(v.Stake))
+		stake := big.NewInt(v.Stake)
+		if v.StakeBig != nil {
+			stake = v.StakeBig
+			val.StakedTokens = sdk.NewIntFromBigInt(stake)
+		}
 		if v.Unstaking {
 			val.Status = sdk.Unstaking
 			val.UnstakingCompletionTime = v.Completion
@@ -98,10 +107,44 @@ func (g GenesisConfig) AppState() []byte {
 			sinfos[v.Actor.AddrHex()] = posTypes.ValidatorSigningInfo{Address: v.Actor.Addr, StartHeight: 0, JailedUntil: v.JailedUntil, Tombstoned: v.Tombstoned}
 		}
 		vals = append(vals, val)
-		total.Add(total, big.NewInt(v.Stake))
-		if g.Exported && !v.Jailed && !v.Unstaking && v.Stake >= 1000000 {
-			prevPowers = append(prevPowers, posTypes.PrevStatePowerMapping{Address: v.Actor.Addr, Power: v.Stake / 1000000})
-			prevTotal += v.Stake / 1000000
+		total.Add(total, stake)
+		if pw := new(big.Int).Quo(stake, big.NewInt(1000000)); g.Exported && !v.Jailed && !v.Unstaking && pw.Sign() > 0 {
+			prevPowers = append(prevPowers, posTypes.PrevStatePowerMapping{Address: v.Actor.Addr, Power: pw.Int64()})
+			prevTotal += pw.Int64()
+		}
+	}
+	if g.Defect != "" {
+		k := -1
+		for i, v := range g.Validators {
+			if !v.Jailed && !v.Unstaking && (k < 0 || i == 1) {
+				k = i
+			}
+		}
+		if k >= 0 {
+			switch g.Defect {
+			case "validator-twice":
+				vals = append(vals, vals[k])
+				total.Add(total, vals[k].StakedTokens.BigInt())
+			case "cons-key-twice":
+				v2 := vals[k]
+				v2.Address = append(sdk.Address{}, v2.Address...)
+				v2.Address[len(v2.Address)-1] ^= 0x5a
+				vals = append(vals, v2)
+				total.Add(total, v2.StakedTokens.BigInt())
+			case "staked-and-jailed":
+				vals[k].Jailed = true
+				sinfos[hx(vals[k].Address)] = posTypes.ValidatorSigningInfo{Address: vals[k].Address, JailedUntil: GenesisTime.Add(time.Hour)}
+			case "unstaking-below-minimum":
+				total.Sub(total, vals[k].StakedTokens.BigInt())
+				vals[k].StakedTokens = sdk.NewInt(g.PosParams.StakeMinimum - 1)
+				vals[k].Status = sdk.Unstaking
+				vals[k].UnstakingCompletionTime = GenesisTime.Add(10 * time.Minute)
+				total.Add(total, vals[k].StakedTokens.BigInt())
+			case "stake-at-minimum":
+				total.Sub(total, vals[k].StakedTokens.BigInt())
+				vals[k].StakedTokens = sdk.NewInt(g.PosParams.StakeMinimum)
+				total.Add(total, vals[k].StakedTokens.BigInt())
+			}
 		}
 	}
 	supply := sdk.NewCoins(sdk.NewCoin(Denom, sdk.NewIntFromBigInt(total)))
